@@ -106,6 +106,14 @@ def run():
                 got = err._error_context(text, len(text))      # end-of-input errors: must not raise, line within the text
                 if not (1 <= got[0] <= max(1, len(text.splitlines()))):
                     out["violations"].append({"text": text, "index": len(text), "outcome": f"line {got[0]} outside the text"})
+                # ... and point to the end of the text: the position just after its last character (for a text that ends in a
+                # line terminator, the end of that last line is accepted as well)
+                want = reference(text, len(text))
+                lines_ = text.splitlines(keepends=True)
+                alt = (len(lines_), len(lines_[-1])) if lines_ else (1, 0)
+                out["checked"] += 1
+                if (got[0], got[1]) != want and (got[0], got[1]) != alt:
+                    out["violations"].append({"text": text, "index": len(text), "outcome": f"end of input reported at line:col {got[0]}:{got[1]}, expected {want[0]}:{want[1]}"})
             except Exception as e:  # noqa: BLE001
                 out["violations"].append({"text": text, "index": len(text), "outcome": f"raised {type(e).__name__}: {e}"})
     except Exception as e:  # noqa: BLE001
